@@ -85,7 +85,7 @@ def main():
                                     {"op": "text", "path": [S("b")]}]}])
     at = os.path.join(tr, "selftest.api.ndjson")
     rt = os.path.join(tr, "selftest.render.ndjson")
-    c.harness(["api-replay", "--cases", cases, "--trace", at, "--render-trace", rt, "--opts", "all"])
+    c.harness(["api-replay", "--cases", cases, "--trace", at, "--render-trace", rt, "--opts", "all"], env={"VERIF_LAYOUT": "1"})
     ev = c.read_ndjson(at)
     lines, acc = rejected_lines("ApiTrace", ev, "api-ok")
     expect("ApiTrace accepts the unmodified trace", lines == [], "%d events" % acc)
@@ -109,6 +109,16 @@ def main():
     n, infos, st = c.judge_trace("RenderTrace", rt, "selftest-render-dup")
     tags = set(t for i in infos for t in i["tags"])
     expect("RenderTrace flags a duplicated struct name", "DUP_STRUCT" in tags, str(sorted(tags)))
+    e = copy.deepcopy(rev)
+    withtext = [(a, b) for a, x in enumerate(e) for b, r in enumerate(x["renders"]) if "textchars" in r]
+    expect("render lines carry the output text as a character sequence", bool(withtext), "%d renders with textchars" % len(withtext))
+    a, b = withtext[0]
+    k = e[a]["renders"][b]["textchars"].index("{")
+    e[a]["renders"][b]["textchars"][k - 1:k - 1] = [" "]          # two blanks before the opening brace
+    c.write_ndjson(rt, e)
+    n, infos, st = c.judge_trace("RenderTrace", rt, "selftest-render-layout")
+    tags = set(t for i in infos for t in i["tags"])
+    expect("RenderTrace flags a text that is not the layout of its struct records", tags == {"LAYOUT"}, str(sorted(tags)))
     # --- replay expectation perturbed
     r, cpath = pc.run_instance("SELF", "docs3", "quick", invariants=["TypeOK", "Exact"])
     cs = c.read_ndjson(cpath)[:400]
